@@ -879,7 +879,9 @@ pub struct FwdOracle {
 	confirmed: BTreeMap<Txid, u32>,
 	/// confirmed spends: outpoint -> (spending txid, height)
 	spent: BTreeMap<OutPoint, (Txid, u32)>,
-	b_broadcast: BTreeSet<Txid>,
+	b_broadcast: BTreeMap<Txid, u64>,
+	/// restarts of B: (step, update id of the monitor image used per channel index)
+	b_restarts: Vec<(u64, Vec<(usize, u64)>)>,
 	height: u32,
 	b_height: u32,
 	/// B's in-flight monitor updates: (chan id, update id)
@@ -1006,7 +1008,8 @@ impl FwdOracle {
 			commits,
 			confirmed: BTreeMap::new(),
 			spent: BTreeMap::new(),
-			b_broadcast: BTreeSet::new(),
+			b_broadcast: BTreeMap::new(),
+			b_restarts: vec![],
 			height: h,
 			b_height: sim.w.nodes[B].best_block_info().1,
 			b_inflight: BTreeSet::new(),
@@ -1236,6 +1239,7 @@ impl FwdOracle {
 						self.b_inflight.clear();
 						// updates still in flight when B stopped never complete in the old process
 						let spans = self.b_async_spans.clone();
+						self.b_restarts.push((at, monitor_ids.iter().filter_map(|(c, id)| chan_of(sim, c).map(|ci| (ci, *id))).collect()));
 						for ci in 0..sim.chans.len() {
 							self.b_updates_unreliable.insert(ci);
 						}
@@ -1257,7 +1261,7 @@ impl FwdOracle {
 				},
 				M::S(SEvent::Broadcast { node, tx, .. }) => {
 					if node == B {
-						self.b_broadcast.insert(tx.compute_txid());
+						self.b_broadcast.entry(tx.compute_txid()).or_insert(at);
 					}
 				},
 				M::S(SEvent::BlockDelivered { node, height }) => {
@@ -1310,7 +1314,7 @@ impl FwdOracle {
 						p.async_pending_at_learn = inflight;
 						self.stats.learned_chain += 1;
 					}
-				} else if rec.chan == up_chan && self.b_broadcast.contains(&txid) {
+				} else if rec.chan == up_chan && self.b_broadcast.contains_key(&txid) {
 					let p = self.pairs.get_mut(&h).unwrap();
 					if p.up_claim_onchain.is_none() {
 						p.up_claim_onchain = Some(at);
@@ -1869,7 +1873,7 @@ impl FwdOracle {
 					let is_anchor = |op: &OutPoint| op.txid == t && !htlc_idx.contains(&op.vout) && ttx.output.get(op.vout as usize).map(|o| o.value.to_sat() <= ANCHOR_SAT).unwrap_or(false);
 					let mut fees = 0u64;
 					for txid in desc.iter() {
-						if *txid == t || !self.b_broadcast.contains(txid) {
+						if *txid == t || !self.b_broadcast.contains_key(txid) {
 							continue;
 						}
 						let Some(tx) = sim.chain.seen.get(txid) else { continue };
@@ -1897,10 +1901,17 @@ impl FwdOracle {
 						allowance += rec.dust.iter().map(|h| h.amt_msat as u128).sum::<u128>();
 					}
 					let mine = if rec.broadcaster == sb { rec.to_broadcaster_sat } else { rec.to_countersignatory_sat };
-					if mine > 0 && reported + spendable == 0 && rec.broadcaster == sb && self.b_broadcast.contains(&t) && self.stats.restarts_b > 0 {
-						// discriminating fact for the key: B's own commitment confirmed, B was restarted, and its monitor
-						// reports nothing for the channel
-						lost_own_commitment = true;
+					if mine > 0 && reported + spendable == 0 && rec.broadcaster == sb {
+						// discriminating facts for the key: the confirmed commitment is B's own, B broadcast it while
+						// monitor updates of that channel were still InProgress, and B was then restarted from an image
+						// of that monitor older than one of those updates
+						if let Some(s_b) = self.b_broadcast.get(&t) {
+							let inflight: Vec<u64> = self.b_async_spans.get(&ci).map(|v| v.iter().filter(|(_, a, d)| a < s_b && d.map(|d| d > *s_b).unwrap_or(true)).map(|(id, _, _)| *id).collect()).unwrap_or_default();
+							let stale_image = self.b_restarts.iter().any(|(rs, ids)| rs > s_b && ids.iter().any(|(c, used)| *c == ci && inflight.iter().any(|id| id > used)));
+							if stale_image {
+								lost_own_commitment = true;
+							}
+						}
 					}
 					if mine == 0 {
 						// B's own balance was below the dust limit and has no output
